@@ -513,3 +513,139 @@ class DAGAddEdgesFrom(Contract):
 
 
 register(DAGAddEdgesFrom())
+
+
+# --------------------------------------------------------------------------------------------------- wrapper lemmas
+class WrapperLemma(Contract):
+    """`Cls.method` has exactly the effect of the networkx model that vf/pyvc/lib.py substitutes for it at call sites
+    (ASSUMED_WRAPPERS shortcut).  Verified, never applied: it turns that shortcut from an assumption into a lemma for the
+    argument shapes listed in `shapes` (the ones the contracted code uses)."""
+    lemma_only = True
+
+    def __init__(self, file, cls, method, shapes):
+        self.file, self.cls, self.method, self.shapes = file, cls, method, shapes
+        self.qual = f"{cls}.{method}"
+
+    def mk_graph(self):
+        directed = self.cls == "DAG"
+        return new_graph(self.cls, "g") if directed else new_graph(self.cls, "g", directed=False, latents=False)
+
+    def variants(self, ex):
+        for label, mk in self.shapes:
+            yield label, dict(self=self.mk_graph(), **mk()), {}
+
+    def pre(self, ex, st, args):
+        from vf.pyvc.engine import nonempty
+        parts = [wf_graph(args["self"])]
+        for c in args.values():
+            if isinstance(c, Coll) and c.len_z is not None and c.mem is not None:
+                parts += [c.len_z >= 0, (c.len_z == 0) == z3.Not(nonempty(c.mem, c.esort))]
+        w, n = args.get("weights"), args.get("nodes", args.get("ebunch"))
+        if isinstance(w, Coll) and isinstance(n, Coll):
+            parts.append(w.len_z == n.len_z)   # the length check of the weights= branch is covered by DAGAddEdgesFrom; here: equal lengths
+        return z3.And(*parts)
+
+    def snapshot(self, ex, st, args):
+        # the model's effect, computed on a copy of the pre-state graph
+        g = args["self"]
+        shadow = Obj(g.cls, dict(g.fields))
+        if "latents" in g.fields:
+            shadow.fields["latents"] = Coll("set", Atom, g.fields["latents"].mem)
+        cname = "DiGraph" if g.fields["@directed"] else "Graph"
+        pos = [v for k, v in args.items() if k in ("node", "nodes", "u", "v", "ebunch")]
+        kw = {k: v for k, v in args.items() if k in ("latent",) and not (isinstance(v, Scalar) and z3.is_false(v.z) and self.method == "add_nodes_from")}
+        ex.lib.graph_method(ex, cname, shadow, self.method, pos, kw, st)
+        return {"shadow": shadow}
+
+    def post(self, ex, st, args, old, result):
+        g, sh = args["self"], old["shadow"]
+        a, b = fresh("a", Atom), fresh("b", Atom)
+        out = {"nodes": z3.ForAll([a], g.fields["@nodes"][a] == sh.fields["@nodes"][a]),
+               "edges": z3.ForAll([a, b], g.fields["@E"][a, b] == sh.fields["@E"][a, b])}
+        if "latents" in g.fields:
+            out["latents"] = z3.ForAll([a], g.fields["latents"].mem[a] == sh.fields["latents"].mem[a])
+        return out
+
+    # loops of add_nodes_from / add_edges_from: the graph equals the model applied to the part of the list processed so far
+    def _inv(self, ex, st, args, old, listed_node=None, listed_edge=None):
+        g = args["self"]
+        a, b = fresh("a", Atom), fresh("b", Atom)
+        N0, E0 = self.cold0["@nodes"], self.cold0["@E"]
+        directed = g.fields["@directed"]
+        if listed_node is not None:
+            parts = [z3.ForAll([a], g.fields["@nodes"][a] == z3.Or(N0[a], listed_node(a))),
+                     z3.ForAll([a, b], g.fields["@E"][a, b] == E0[a, b])]
+        else:
+            e = (lambda x, y: listed_edge(x, y)) if directed else (lambda x, y: z3.Or(listed_edge(x, y), listed_edge(y, x)))
+            parts = [z3.ForAll([a, b], g.fields["@E"][a, b] == z3.Or(E0[a, b], e(a, b))),
+                     z3.ForAll([a], g.fields["@nodes"][a] == z3.Or(N0[a], z3.Exists([b], z3.Or(listed_edge(a, b), listed_edge(b, a)))))]
+        if "latents" in g.fields:
+            parts.append(z3.ForAll([a], g.fields["latents"].mem[a] == self.cold0["latents"][a]))
+        parts.append(wf_graph(g))
+        return z3.And(*parts)
+
+    def inv_index(self, ex, st, args, old, ghost):
+        from vf.pyvc.lib import PairAA
+        name = "nodes" if self.method == "add_nodes_from" else "ebunch"
+        c = st.env[name]
+        at, _ = ex.seq_of(c, st)
+        done = ghost["done"]
+        i = fresh("i", z3.IntSort())
+        rng = z3.ForAll([i], z3.Implies(done[i], z3.And(0 <= i, i < c.len_z)))
+        if self.method == "add_nodes_from":
+            return z3.And(self._inv(ex, st, args, old, listed_node=lambda a: z3.Exists([i], z3.And(done[i], at(i) == a))), rng)
+        return z3.And(self._inv(ex, st, args, old, listed_edge=lambda a, b: z3.Exists([i], z3.And(done[i], at(i) == PairAA.mk(a, b)))), rng)
+
+    def inv_elem(self, ex, st, args, old, ghost):
+        from vf.pyvc.lib import PairAA
+        done = ghost["done"]
+        if self.method == "add_nodes_from":
+            return self._inv(ex, st, args, old, listed_node=lambda a: done[a])
+        return self._inv(ex, st, args, old, listed_edge=lambda a, b: done[PairAA.mk(a, b)])
+
+    @property
+    def invariants(self):
+        if self.method not in ("add_nodes_from", "add_edges_from"):
+            return {}
+        if self.cls == "DAG" and self.method == "add_nodes_from":
+            return {0: self.inv_index, 1: self.inv_index}
+        return {0: self.inv_index, 1: self.inv_elem}
+
+
+def _wl_snapshot(self, ex, st, args):
+    self.cold0 = graph_snapshot(args["self"])
+    return WrapperLemma._snapshot0(self, ex, st, args)
+
+
+WrapperLemma._snapshot0 = WrapperLemma.snapshot
+WrapperLemma.snapshot = _wl_snapshot
+
+
+def _shapes():
+    from vf.pyvc.lib import PairAA
+    from .common import atom_list
+
+    def lst(name, sort, const):
+        c = Coll("list", sort, z3.Const(const, set_sort(sort)))
+        c.len_z = z3.Int("n_" + const)
+        return c
+    node = lambda: {"node": atom("n", "str")}
+    dag, ug = "pgmpy/base/DAG.py", "pgmpy/base/UndirectedGraph.py"
+    yield WrapperLemma(dag, "DAG", "add_node", [("plain", node), ("latent=False", lambda: dict(node(), latent=Scalar(z3.BoolVal(False)))),
+                                                ("latent=True", lambda: dict(node(), latent=Scalar(z3.BoolVal(True)))),
+                                                ("weight", lambda: dict(node(), weight=Scalar(z3.Const("w", Opaque))))])
+    yield WrapperLemma(dag, "DAG", "add_nodes_from", [("plain", lambda: {"nodes": lst("nodes", Atom, "nodes")}),
+                                                      ("weights", lambda: {"nodes": lst("nodes", Atom, "nodes"), "weights": lst("weights", Opaque, "weights")})])
+    yield WrapperLemma(dag, "DAG", "add_edge", [("plain", lambda: {"u": atom("u"), "v": atom("v")}),
+                                                ("weight", lambda: {"u": atom("u"), "v": atom("v"), "weight": Scalar(z3.Const("w", Opaque))})])
+    yield WrapperLemma(ug, "UndirectedGraph", "add_node", [("plain", node), ("weight", lambda: dict(node(), weight=Scalar(z3.Const("w", Opaque))))])
+    yield WrapperLemma(ug, "UndirectedGraph", "add_nodes_from", [("plain", lambda: {"nodes": lst("nodes", Atom, "nodes")}),
+                                                                  ("weights", lambda: {"nodes": lst("nodes", Atom, "nodes"), "weights": lst("weights", Opaque, "weights")})])
+    yield WrapperLemma(ug, "UndirectedGraph", "add_edge", [("plain", lambda: {"u": atom("u"), "v": atom("v")})])
+    yield WrapperLemma(ug, "UndirectedGraph", "add_edges_from", [("plain", lambda: {"ebunch": lst("ebunch", PairAA, "ebunch")}),
+                                                                  ("weights", lambda: {"ebunch": lst("ebunch", PairAA, "ebunch"), "weights": lst("weights", Opaque, "weights")})])
+
+
+WRAPPER_LEMMAS = list(_shapes())
+for _w in WRAPPER_LEMMAS:
+    register(_w)
